@@ -14,7 +14,7 @@ import (
 	"sync/atomic"
 )
 
-func goid() int64 {
+func slowGoid() int64 {
 	var buf [64]byte
 	n := runtime.Stack(buf[:], false)
 	b := buf[:n]
